@@ -9,8 +9,17 @@ for d in sorted(glob.glob('/verif/seeded/C*-*')):
     notes = open(os.path.join(d, 'notes.md')).read()
     lines = [l.strip() for l in notes.splitlines() if l.strip()]
     title = re.sub(r"^#+\s*", "", lines[0]) if lines else ""
-    title = re.sub(r"^(Change|Seeded change)\s+[A-D]\s*[—:-]+\s*", "", title)[:150].replace("|", "/")
+    title = re.sub(r"^(Change|Seeded change)\s+[A-D]\s*[—:-]+\s*", "", title)
+    title = re.sub(r"^C\d\d\s*/?\s*(\(?round \d\)?\s*/?\s*)?(change\s+[AB]\s*)?(\(round \d\))?\s*[—:-]+\s*", "", title, flags=re.I)[:150].replace("|", "/")
     r = res.get(sid, {})
     how = r.get("line", "")
-    kind = "no-failing-input-found (obligation only)" if "no-failing-input-found" in how else ("direct oracle: " + how.split("--")[-1].strip()[:90] if "--" in how else how[:90])
+    what = how.split("--")[-1].strip()[:90] if "--" in how else how[:90]
+    if "no-failing-input-found" in how:
+        kind = "correspondence only (no-failing-input-found): " + what
+    elif "FAILED obligation: correspondence" in how:
+        kind = "correspondence (first of the failed obligations): " + what
+    elif "FAILED obligation: property oracle" in how:
+        kind = "property rule: " + what
+    else:
+        kind = what
     print("| %s | %s | %s | %s | %s |" % (sid, r.get("property", sid.split('-')[0]), title, ", ".join(r.get("by", [])) or ("MISSED" if r.get("caught") is False else "?"), kind.replace("|", "/")))
